@@ -22,6 +22,10 @@ RULE = ("(a) exhaustive: 6 fixed shapes (chain, diamond, fork, join, two compone
         "pending/running one); the ids named as prerequisites are exactly the latest job ids of the model's incomplete "
         "direct dependencies; every prerequisite submitted in the same run precedes its dependent. Non-trivial: the "
         "vector holds a failed/cancelled/pending/running target and the cone has a target with >=2 direct dependencies. "
+        ""
+        "CLI tier also: up to two commands that only look (status, dry-run, status <name>, info) between the "
+        "earlier history and the run that is checked; PathLike spellings; bracket-only name patterns; "
+        "invocation styles of project.Project. "
         "Distinct = SHA-1 of canonical case JSON.")
 ASSUMPTIONS = [
     "simulated schedulers implement the documented CLI contract of sbatch/qsub/bsub (vlib/simsched.py); job states are forced directly for pre-population",
